@@ -136,7 +136,7 @@ Section Progs.
     | PF_read_meta k => (fs, match fs_read fs (meta k) with Some m => set_pc p (PF_read_blob k m) | None => fail p end)
     | PF_read_blob k m => (fs, match fs_read fs (blob k) with Some c => finish p (RBlob k m c) | None => fail p end)
     | PP_stat_dir loc => (fs, if fs_exists fs (parent loc) then set_pc p (PP_stat_loc loc) else finish p RErr)
-    | PP_stat_loc loc => (fs, if fs_exists fs loc then set_pc p (PP_realpath loc) else finish p RErr)
+    | PP_stat_loc loc => (fs, if fs_islink fs loc && fs_exists fs loc then set_pc p (PP_realpath loc) else finish p RErr)
     | PP_realpath loc => (fs, finish p (RKey (fs_realpath fs loc)))
     end.
 
